@@ -10,7 +10,7 @@ FACTS_FOR = {
     "C05": ["mwWriteOk", "mwSyncOk", "mwUnmapOk", "handleErrorNoLock", "errorAttributionWriteAt", "errorAttributionSync",
             "errorAttributionUnmap", "errorAttributionReadAt", "removeBackendTail", "removeReplicaTail"],
     "C06": ["fullWritePunch", "preloadPunch", "removeIndexSnapIndx", "lookupBody"],
-    "C07": ["verifyOrder", "verifyChainGuard", "verifySlices", "canAdd", "addReplicaNoLockRechecks"],
+    "C07": ["verifyOrder", "verifyChainGuard", "verifySlices", "canAdd", "addReplicaNoLockRechecks", "writeWidensForWO", "widenForWO"],
     "C09": ["canSignal", "electionLoop", "electionInit", "electionSkipsRebuildingRegistrant"],
     "C10": ["replicaWriteCounter", "increaseRevisionCounter", "getRevisionCounter", "guard_Replica_SetRevisionCounter", "verifyOrder"],
     "C11": ["cleanerConds", "cleanerSlices", "removeIndexShifts", "removeIndexBody", "removeIndexSnapIndx",
@@ -83,6 +83,13 @@ PROPS = {
             "runs": [rep("io", 480, 30, 8000, 45), rep("mix", 320, 30, 6000, 45, 1)], "modelled": FS},
     "C06": {"lean": ["JivaVerif.Properties.C06"],
             "runs": [rep("snapshots", 640, 32, 10000, 45, 2)], "modelled": FS},
+    "C07": {"lean": ["JivaVerif.Properties.C07", "JivaVerif.Properties.Controller"],
+            "prefixes": ["c07_", "sameWrites_", "c10_promotion", "ctl_reachable_inv"],
+            "runs": [rep("rebuild", 320, 30, 8000, 40, 8), ctl("membership", 320, 30, 6000, 40, 18)],
+            "modelled": FS + CTL + [
+                "harness (rebuild profile): a REAL controller with the REAL remote backend drives three REAL replicas behind their REST and RPC servers on loopback addresses (harness/stack); the harness plays the sync agent only: it copies the source's snapshot files (holes preserved) and head metadata under the newcomer, reloads it without preload and calls UpdateLUNMap, as sync.syncFiles / reloadAndVerify do",
+                "modelled: the file transfer itself (sync agent, ssync child processes, HTTP range protocol of sparse-tools) is replaced by a sparse copy; an interrupted transfer is covered only as far as the controller's gate goes (c07_gate: no promotion without equal chains; the replica stays WO / is dropped)",
+                "modelled: the rebuilt replica's image is computed by the model from the source's state (c07_identical / c07_rebuild justify this); crash points of the rebuilding or source process are not enumerated here (C08 covers the replica directory, C02/C05 the controller's reaction)"]},
     "C10": {"lean": ["JivaVerif.Properties.C10"],
             "runs": [rep("counter", 320, 30, 5000, 45, 3)], "modelled": FS + [
                 "modelled: the counter file is one 4 KiB O_DIRECT block rewritten by a single pwrite under revisionLock; concurrent writers are one atomic step each"]},
